@@ -35,7 +35,7 @@ def main():
         fails = check.run_oracle(rep, obj, rng, a.tier, a.kind)
         print(rep.oracles)
         for f in fails[:a.show]:
-            print("FAIL tag=%s detail=%s\n  case=%s\n  out=%s\n  err=%s" % (f[0], f[1], f[2][:600], f[3][:600], f[4][-600:]))
+            print("FAIL tag=%s detail=%s\n  case=%s\n  out=%s\n  err=%s" % (f[0], f[1], f[2][:600], f[3][:600], f[4][:2500]))
     else:
         mism = check.run_t2(rep, obj, rng, a.tier, a.kind)
         print(rep.t2)
